@@ -279,6 +279,10 @@ def run(ctx):
         for k, b, a in g.get("globals_changed") or []:
             ctx.violation("global-state-modified-by-import-or-use:%s" % k, "process-global state differs between 'before importing the package' and 'after using it'",
                           k, str(b)[:200], str(a)[:200], replay={"kind": "globals-fresh", "python": py, "ops": g_ops})
+    # (c'') interpreter options and objects shipped between processes with other hash seeds; the CLI under other environments
+    conc.flag_variants(ctx, [op for op in ops[:: max(1, len(ops) // 150)] if core.sendable(str(op[2]))], "any")
+    conc.pickle_across(ctx, [(v, s) for v, s in probes_[:: max(1, len(probes_) // 60)] if obs.construct(v, s)[0] is not None], "any")
+    conc.cli_environments(ctx, [(["-v", probes_[0][1]], []), (["-3"], ["n", "l", "n", "n", "u", "h", "h", "h"]), (["-4", "-j", "-v", "CVSS:4.0/AV:N/AC:L/AT:N/PR:N/UI:N/VC:N/VI:N/VA:N/SC:N/SI:N/SA:N"], [])], "any")
     # (d) hash seeds (fresh processes), incl. text extraction whose result is a set
     from . import c13
     ops2 = ops + [["X", c13.make_text(rng)[0]] for _ in range(ctx.n(40, 300))]
@@ -312,6 +316,23 @@ def run(ctx):
                         ctx.violation("v%s:result-depends-on-decimal-context" % v, "scores change under an ambient decimal rounding mode / precision >= 28",
                                       s, b, {"rounding": mode, "prec": prec, "got": got}, replay={"kind": "decimal", "ver": v, "s": s, "rounding": mode, "prec": prec})
             ctx.nontrivial(("decimal", mode, prec))
+    # constructed under the default context, first READ under another one (and the other way round): lazily computed values
+    valid = [((v, s), b) for (v, s), b in zip(dvecs, dbase) if b.startswith("ok\t")]
+    valid = valid[:: max(1, len(valid) // 120)]
+    for mode in modes:
+        objs = [core.build(v, s, variant=0) for (v, s), _ in valid]
+        with decimal.localcontext() as c:
+            c.rounding = mode
+            c.prec = 28
+            inner = [core.build(v, s, variant=0) for (v, s), _ in valid]
+            got1 = ["ok\t" + core.obs_field(v, o, "s") for ((v, s), _), o in zip(valid, objs)]
+        got2 = ["ok\t" + core.obs_field(v, o, "s") for ((v, s), _), o in zip(valid, inner)]
+        for ((v, s), b), g1, g2 in zip(valid, got1, got2):
+            ctx.count(2)
+            if g1 != b or g2 != b:
+                ctx.violation("v%s:result-depends-on-decimal-context" % v, "scores change when the object is built under one decimal context and read under another",
+                              s, b, {"rounding": mode, "built-default-read-inside": g1, "built-inside-read-default": g2},
+                              replay={"kind": "decimal", "ver": v, "s": s, "rounding": mode, "prec": 28})
 
 
 def replay(data):
